@@ -313,6 +313,10 @@ def run(ctx):
             tvecs, tuni, _ = enumerate_cases(ctx, ["topmeta", "topplain"], module="MCExecTop")
             trep = replay(ctx, tvecs, tuni, "replay-utop", strategies="iface,any")
             absorb(ctx, trep, "replay-utop", aspects, devs, ctx.prop)
+            # U-nomut: no root for mutations, on roots that were once offered a type Mutation in a document they refused
+            nvecs, nuni, _ = enumerate_cases(ctx, ["nomut"], module="MCExecNoMut")
+            nrep = replay(ctx, nvecs, nuni, "replay-unomut", strategies="iface,any", extra=["-offer-mutation"])
+            absorb(ctx, nrep, "replay-unomut", aspects | {"opchoice"}, devs, ctx.prop)
         if ctx.prop == "C06":
             leaf_list_failures(ctx)
         if ctx.prop == "C09":
